@@ -143,6 +143,18 @@ theorem verify_keeps_objects {s : St} (hinv : Inv s) (r i : Nat) (calls : List (
   obtain ⟨e, he, _⟩ := verify_preserves_heap hinv r i calls
   rw [he]; exact getElem?_append_of_some e ho
 
+/-- the class (mutable / immutable variant) and the current value of the object at any target are
+    the ones the value store predicts -/
+theorem target_refines {s : St} {sp : Store} (hinv : Inv s) (hrel : Rel s sp) {t : Target} {x : Addr}
+    (ht : s.target t = some x) :
+    ∃ (o : Obj) (v : Val), s.heap[x]? = some o ∧ absVal s.heap x = some v ∧ lookup sp t = some (o.isMut, v) := by
+  obtain ⟨I⟩ := target_some hinv hrel ht
+  exact ⟨I.o, I.vx, I.ho, I.habs, by rw [← I.hom]; exact I.hlook⟩
+
+/-- a target that does not resolve on the heap does not exist on the value store either -/
+theorem target_refines_none {s : St} {sp : Store} (hinv : Inv s) (hrel : Rel s sp) {t : Target}
+    (ht : s.target t = none) : lookup sp t = none := target_none hinv hrel ht
+
 /-! ### what the refinement means for copies -/
 
 /-- on plain values, one step changes the entry of a name only if it is the mutable root the
